@@ -2,16 +2,20 @@ from vf.props import common as C
 
 
 def plan(tier):
-    conds = C.t_instr_conds("C10", tier)
+    conds = []
+    env_extra = {"VF_PIN_PLUGS": "1"} if tier == "quick" else {}
+    ic = C.t_instr_conds("C10", tier, fn="t_instr_memb")
+    for c in ic:
+        c.env.update(env_extra)
+    conds += ic
+    conds += C.t_upd_conds("C10", tier)
     return {
         "conds": conds,
         "min_classes": 150,
-        "explanation": "C10: counter invariant I-cnt (free plugs in [0,total], total-free = vehicles charging there incl. via a base, "
-                       "queue counter = vehicles queueing; stalls likewise) is preserved by one real transition from an arbitrary "
-                       "INV pre-state (one-step induction).",
-        "entry_points": ["step_simulation_ops.apply_instructions"],
-        "bounds": C.ARENA_BOUNDS + ["1 modelled vehicle per transition; 13 previous activities x 16 instructions"],
-        "outside": ["stations removed mid-run", "custom Instruction subclasses"],
-        "stubs": C.STUBS_COMMON,
-        "assumptions": ["pre-state satisfies INV (DESIGN 3.2)"],
+        "explanation": "C10: after any instruction / default transition the vehicle's activity target grants access to the vehicle's membership (5x5 grid of vehicle x target memberships incl. public, two fleets, both, private).",
+        "entry_points": ['step_simulation_ops.apply_instructions', 'step_simulation_ops.step_vehicle (VehicleState.update -> default_update -> move/charge/idle/pick_up_trip/drop_off_trip)'],
+        "bounds": C.ARENA_BOUNDS + C.T_BOUNDS,
+        "outside": C.T_OUTSIDE,
+        "stubs": C.STUBS_COMMON + C.STUBS_UPD,
+        "assumptions": ["pre-state satisfies INV (DESIGN 3.2); INV base case is the loader's initial state"],
     }
